@@ -13,6 +13,7 @@
      operand  -x  is the node  -1 * x  (parser.go: parseUnaryExpr).
 
    Operands:  [f |-> "ref", i]            v<i>           (or /r<i>/ after =~ !~)
+              [f |-> "lit", i, v]         an integer literal; "-2" is written with a sign and is ONE literal
               [f |-> "neg", i]            -v<i>
               [f |-> "pos", i]            +v<i>
               [f |-> "par", i, sub, d]    ( p<i>_0 sub[1] p<i>_1 ... )   written with d pairs of
@@ -75,6 +76,7 @@ Atom(x, afterRegex, design) ==
                ELSE RefGroup(x.sub, SubAtoms(x.i, x.sub), 1, Len(x.sub))
   IN CASE afterRegex -> ReL("r" \o ToString(x.i))
        [] x.f = "ref" -> Ref(VName(x.i))
+       [] x.f = "lit" -> IntL(x.v)
        [] x.f = "neg" -> Signed("-1", Ref(VName(x.i)))
        [] x.f = "pos" -> Signed("1", Ref(VName(x.i)))
        [] x.f = "par" -> Wrap(inner, x.d)
@@ -103,6 +105,7 @@ OperandToks(x, afterRegex) ==
   LET par == <<P("(")>> \o [j \in 1..(x.d - 1) |-> PT("(")] \o <<IdT(SubName(x.i, 0))>> \o SubToks(x.i, x.sub, 1) \o [j \in 1..x.d |-> PT(")")]
   IN CASE afterRegex -> <<Re("r" \o ToString(x.i))>>
        [] x.f = "ref" -> <<Id(VName(x.i))>>
+       [] x.f = "lit" -> IF SubSeq(x.v, 1, 1) = "-" THEN <<P("-"), IntT(SubSeq(x.v, 2, Len(x.v)))>> ELSE <<[t |-> "int", s |-> x.v, g |-> "L"]>>
        [] x.f = "neg" -> <<P("-"), IdT(VName(x.i))>>
        [] x.f = "pos" -> <<P("+"), IdT(VName(x.i))>>
        [] x.f = "par" -> par
